@@ -193,8 +193,10 @@ static void run_one(const json &sc, const std::string &engine) {
     x.live.assign(x.n + 1, false);
     x.fires.assign(x.n + 1, 0);
     g_vnow = x.base;
-    vh::T().line(std::string("{\"e\":\"Reset\",\"kind\":\"") + (x.is_pool ? "pool" : "event") + "\",\"n\":" + std::to_string(x.n) +
-                 ",\"engine\":\"" + engine + "\"}");
+    std::string meta = std::string("\"kind\":\"") + (x.is_pool ? "pool" : "event") + "\",\"n\":" + std::to_string(x.n) +
+                 ",\"engine\":\"" + engine + "\",\"base\":\"" + std::to_string(x.base) + "\",\"pre\":" + (sc.value("pre", false) ? "true" : "false") + "}";
+    vh::T().line("{\"e\":\"Reset\"," + meta);
+    vh::T().line("{\"e\":\"info\"," + meta);      // repeated so that a saved execution (cut after its Reset line) is self-describing
     x.loop = Loop::New(engine);
     if (!x.loop) { fprintf(stderr, "no engine %s\n", engine.c_str()); _exit(3); }
     if (x.is_pool) x.pool = new TimerPool(x.loop);
